@@ -1,23 +1,9 @@
-// Trusted stand-ins for three things dfa_from_regex calls:
-//  * Regex::firstpos / Regex::followpos: the sets computed by RegexNode::firstpos / followpos for
-//    the root (both proved in unit c02a; followpos() only adds a OnceCell cache around it);
+// Trusted stand-in for one thing dfa_from_regex calls:
 //  * Inp::from_input: the automaton symbol of a regex item is a function of the item during one
 //    run (`inp_label`): for literals, placeholders and commands this is the Kani-proved mapping
 //    C02.from_input.labels_carried_over; for a within-word item the id comes from a cache that
 //    only grows and an interning pool in which equal automata get equal ids.
 verus! {
-
-impl Regex {
-    #[verifier::external_body]
-    fn firstpos(&self) -> (r: RoaringBitmap)
-        ensures r@ == s_first(self.arena@, nid(self.root_id))
-    { unimplemented!() }
-
-    #[verifier::external_body]
-    fn followpos(&self) -> (r: &std::collections::BTreeMap<u32, RoaringBitmap>)
-        ensures forall|t: u32, h: u32| #[trigger] fmap(r@, t, h) <==> follows_code(self.arena@, nid(self.root_id), t, h)
-    { unimplemented!() }
-}
 
 pub uninterp spec fn inp_label(input: RegexInput) -> Inp;
 
